@@ -11,6 +11,7 @@ usage: rust2coq.py --repo <lasso checkout> --out <dir> [--only keys|arena|lockfr
   threaded  src/threaded_rodeo.rs                         -> <out>/ThreadedGen.v       (lower_threaded.py)
   views     src/reader.rs, src/resolver.rs, conversions   -> <out>/ViewsGen.v          (lower_views.py)
   clone     src/rodeo.rs (clone paths)                    -> <out>/CloneGen.v          (lower_clone.py)
+  iters     src/util.rs (Iter / Strings) + their callers  -> <out>/ItersGen.v          (lower_iters.py)
 
 Every function body is first prepared by astx.py (helpers of the same file inlined, idioms normalised); see there.
 Whenever the source leaves the subset the translator understands it prints
@@ -65,7 +66,12 @@ def do_clone(repo, out):
     lower_clone.run(repo, out)
 
 
-PARTS = {"clone": (do_clone, "src/rodeo.rs"), "views": (do_views, "src/reader.rs"), "threaded": (do_threaded, "src/threaded_rodeo.rs"), "keys": (do_keys, "src/keys.rs"), "arena": (do_arena, "src/arenas"), "lockfree": (do_lockfree, "src/arenas"),
+def do_iters(repo, out):
+    import lower_iters
+    lower_iters.run(repo, out)
+
+
+PARTS = {"iters": (do_iters, "src/util.rs"), "clone": (do_clone, "src/rodeo.rs"), "views": (do_views, "src/reader.rs"), "threaded": (do_threaded, "src/threaded_rodeo.rs"), "keys": (do_keys, "src/keys.rs"), "arena": (do_arena, "src/arenas"), "lockfree": (do_lockfree, "src/arenas"),
          "rodeo": (do_rodeo, "src/rodeo.rs")}
 
 
